@@ -58,6 +58,10 @@ def obligations(tier, H):
             shape = {"part": "do_POST", "text": text, "reply": reply}
             add("c1: int, c2: int, ctype: str", "H.h_do_post({0!r}, c1, c2, ctype)".format(shape),
                 ["0 <= c1 <= c2 <= {0}".format(size), "len(ctype) <= {0}".format(slen)], shape)
+        # the peer announces more bytes than it sends and half-closes: the available text is dispatched
+        shape = {"part": "do_POST", "text": text, "reply": 0, "missing": 3}
+        add("c1: int, c2: int, ctype: str", "H.h_do_post({0!r}, c1, c2, ctype)".format(shape),
+            ["0 <= c1 <= c2 <= {0}".format(size), "len(ctype) <= {0}".format(slen)], shape)
         shape = {"part": "do_POST", "text": text, "raises": True}
         add("c1: int, c2: int, ctype: str", "H.h_do_post({0!r}, c1, c2, ctype)".format(shape),
             ["0 <= c1 <= c2 <= {0}".format(size), "len(ctype) <= {0}".format(slen)], shape, codes=(101,))
